@@ -49,6 +49,10 @@ func buildDesc(inp M) (in []byte, data []byte) {
 		if str(inp, "kind") == "desc" && num(inp, "dwlen") >= 24 {
 			if str(inp, "guid") == "pkcs7" {
 				b.Write(wire(map[string]string{"g": pkcs7GUIDWire}, "g"))
+			} else if str(inp, "guid") == "zero" {
+				b.Write(make([]byte, 16)) // the all-zero GUID is a type GUID like any other
+			} else if str(inp, "guid") == "ones" {
+				b.Write(bytes.Repeat([]byte{0xff}, 16))
 			} else {
 				b.Write(wire(map[string]string{"g": otherGUIDWire}, "g"))
 			}
@@ -85,6 +89,24 @@ func runDesc(sc M) {
 	callStart(id, "decode:"+kind, M{"len": len(in)})
 	accepted := false
 	o, _ := guard(func() error {
+		if str(inp, "prior") == "trunc" {
+			// what this process decoded before: the same bytes cut inside the certificate body (an error), through every entry point
+			hdr := 8
+			if kind == "desc" {
+				hdr = 24
+			}
+			for _, cut := range []int{hdr + 1, hdr + (consumed-hdr)/2, consumed - 1} {
+				if cut < 0 || cut >= consumed || cut > len(in) {
+					continue
+				}
+				if kind == "wincert" {
+					signature.ReadWinCertificate(bytes.NewReader(in[:cut]))
+				} else {
+					signature.ReadEFIVariableAuthencation2(bytes.NewReader(in[:cut]))
+					signature.NewEFIVariableAuthentication2().Unmarshal(bytes.NewBuffer(append([]byte{}, in[:cut]...)))
+				}
+			}
+		}
 		if !done {
 			// malformed relation: also through a reader that exposes nothing but Read (allocation must not follow the length field)
 			if kind == "wincert" {
